@@ -359,8 +359,11 @@ http_txn_cb(void *arg)
 	}
 
 error:
-	http_txn_finish_aios(txn, rv);
+	// Close the connection before completing the user's aio: once that
+	// completes the user owns the connection again (and is told to close
+	// it after a failure), so it must not be touched afterwards.
 	nni_http_conn_close(txn->conn);
+	http_txn_finish_aios(txn, rv);
 	nni_mtx_unlock(&http_txn_lk);
 	http_txn_fini(txn);
 }
